@@ -129,10 +129,10 @@ def run(ctx, ck):
         # image loop inside
         img = [x for x in loops_in(l) if isinstance(x, ast.For) and norm(x.iter) == 'self.image_iter()']
         ck.floor('image loops in near field', len(img), 1)
+        n_ok = 0        # (over all image loops of the grid point: one loop for both fields, or one per field)
         for il in img:
             k = il.target.id if isinstance(il.target, ast.Name) else None
             accs = [s for s in walk_no_nested(il) if isinstance(s, ast.AugAssign) and isinstance(s.op, ast.Add)]
-            n_ok = 0
             for s in accs:
                 # the accumulated value carries the image sign k as a factor
                 pr = product_of(s.value)
@@ -147,7 +147,7 @@ def run(ctx, ck):
                 ck.ob('R-EXH.image-loop', '%s|image-sign|%s' % (NF, norm(s.target)), has_k, f.loc(s),
                       'accumulates %s' % norm(s.value)[:80])
                 n_ok += 1
-            ck.floor('accumulations in near-field image loop', n_ok, 2)
+        ck.floor('accumulations in near-field image loop', n_ok, 2)
     from ._sym import check_ground_symmetry
     ck.rule('R-SYM.ground-halves', 'statements selecting one half of the ground flags select the other too')
     nsel, nst = check_ground_symmetry(ctx, ck)
